@@ -514,7 +514,16 @@ class Generated:
         self.trusted = []
 
 
+_BUILD_LOCK = __import__("threading").Lock()
+
+
 def build_unit(spec, repo=REPO):
+    # (rule R9 collects its literal pieces in a module-level table: one build at a time)
+    with _BUILD_LOCK:
+        return _build_unit(spec, repo)
+
+
+def _build_unit(spec, repo=REPO):
     g = Generated()
     rsx.FMT_LITS.clear()
     cdir = os.path.join(VERIF, "contracts")
